@@ -495,6 +495,11 @@ impl Deb822 {
     fn insert_empty_paragraph(&mut self, index: Option<usize>) -> Paragraph {
         let paragraph = Paragraph::new();
         let mut to_insert = vec![];
+        if index.is_none() {
+            // Appending: the separator must not double as the terminator of an
+            // unterminated last line.
+            terminate_last_line(&self.0);
+        }
         if self.0.children().count() > 0 {
             let mut builder = GreenNodeBuilder::new();
             builder.start_node(EMPTY_LINE.into());
